@@ -38,6 +38,21 @@ Definition cp_empty : codepkg :=
 Definition numv (v : N) : res value := do n <- num_of_int false v None MNone; Ok (VNum n).
 Definition numv_h (v : N) (h : N) : res value := do n <- num_of_int false v (Some h) MNone; Ok (VNum n).
 
+(* fit_value(value, hex_digits, signed): the value rendered in exactly hex_digits digits, or
+   OperandTypeError when it does not fit (F26) *)
+Definition fit_value (v : value) (digits : N) (signed : bool) : res value :=
+  let number := if v_negative v then (- Z.of_N (v_int v))%Z else Z.of_N (v_int v) in
+  let limit := Z.pow 16 (Z.of_N digits) in
+  if (limit <=? number)%Z || (number <? (if signed then - (limit / 2) else 0))%Z then OTE
+  else do n <- num_of_Z number (Some digits) MNone; Ok (VNum n).
+
+(* ImmediateOperand.address_digits / Operand.address_digits *)
+Definition imm_digits (i : irow) : N :=
+  match Tables.imm i with
+  | Some opc => 2 * (Tables.imm_sz i - (if 255 <? opc then 2 else 1))
+  | None => 4
+  end.
+
 (* ---------- Operand.create_from_str ---------- *)
 
 Definition create_value (t : text) (i : irow) (dflt_ext : bool) : res value :=
@@ -134,8 +149,8 @@ Definition resolve_operand (o : operand) (i : irow) (tb : symtab) : res operand 
       match v' with
       | VPyNone => Diag 24
       | _ =>
-        if v_is_numeric v' && (v_is_direct v' || mode_eqb (v_mode v) MExplDirect) then
-          do n <- num_of_int false (v_int v') None MDirect; Ok (ODirect (VNum n))
+        let fits_direct := v_is_direct v' && (v_int v' <? 256) && negb (v_negative v') in
+        if v_is_numeric v' && (fits_direct || mode_eqb (v_mode v) MExplDirect) then Ok (ODirect v')
         else Ok (OExtended v')
       end
   | OExtIdx s v l r =>
@@ -322,16 +337,21 @@ Definition translate_operand (o : operand) (i : irow) : res codepkg :=
       | Some opc => if v_is_address v then simple_pkg opc v (Tables.rel_sz i) else OTE
       end
   | OInherent => opt_op (Tables.inh i) (fun opc => simple_pkg opc VNone (Tables.inh_sz i))
-  | OImmediate v => opt_op (Tables.imm i) (fun opc => simple_pkg opc v (Tables.imm_sz i))
-  | ODirect v => opt_op (Tables.dir i) (fun opc => simple_pkg opc v (Tables.dir_sz i))
-  | OExtended v => opt_op (Tables.ext i) (fun opc => simple_pkg opc v (Tables.ext_sz i))
+  | OImmediate VPyNone | ODirect VPyNone | OExtended VPyNone => Diag 24
+  | OImmediate v => opt_op (Tables.imm i) (fun opc =>
+      do a <- (if v_is_numeric v then fit_value v (imm_digits i) true else Ok v); simple_pkg opc a (Tables.imm_sz i))
+  | ODirect v => opt_op (Tables.dir i) (fun opc =>
+      do a <- (if v_is_numeric v then fit_value v 2 false else Ok v); simple_pkg opc a (Tables.dir_sz i))
+  | OExtended v => opt_op (Tables.ext i) (fun opc =>
+      do a <- (if v_is_numeric v then fit_value v 4 true else Ok v); simple_pkg opc a (Tables.ext_sz i))
   | OUnknown v => Ok {| cp_op := VNone; cp_addr := VNone; cp_post := VNone; cp_add := v; cp_size := 0;
                         cp_needs := false; cp_choices := []; cp_max := 0 |}
   | OExtIdx s v l r =>
       opt_op (Tables.ind i) (fun opc =>
       match v with
       | VPyNone => Diag 24
-      | VAddr _ | VNum _ => mk_idx_pkg opc 159 [] v (Tables.ind_sz i + 2) (Tables.ind_sz i + 2) false
+      | VAddr _ => mk_idx_pkg opc 159 [] v (Tables.ind_sz i + 2) (Tables.ind_sz i + 2) false
+      | VNum _ => do a <- fit_value v 4 true; mk_idx_pkg opc 159 [] a (Tables.ind_sz i + 2) (Tables.ind_sz i + 2) false
       | _ => match r with
              | None => Diag 24        (* "X" in NoneValue: TypeError inside the wrapped translate *)
              | Some rt => translate_indexed true l rt i
